@@ -322,6 +322,12 @@ def _overcap_key(kind: str, logical: int, ecap: int, succeeded: bool, ext: dict[
             f"external_overcap_upload:{regime}:then_success:{who}",
             "a successful response uploaded more bytes to external storage than max_externalized_response_bytes",
         )
+    if regime == "framing_gap" and who == "compressed_upload":
+        # same accounting question as then_success:compressed_upload (raw vs. coded upload size)
+        return (
+            "external_overcap_upload:framing_gap:then_error:compressed_upload",
+            "a compressed upload larger than max_externalized_response_bytes was performed (the cap is accounted on the uncompressed size) and the response failed for another reason",
+        )
     if regime == "framing_gap":
         return (
             "external_overcap_upload:framing_gap:then_error",
